@@ -29,7 +29,28 @@ pub fn gen_sess_run(check: &str, seed: u64, tier: Tier, with_probes: bool) -> Ru
     let mut w = Rng::stream(seed, "workload");
     let cap = if tier == Tier::Quick { UNIVERSE_CAP_QUICK } else { UNIVERSE_CAP_THOROUGH };
     let mut tries = 0;
+    // wide mode (own stream, so that the other runs stay what they were): terms with 5-12 free slots,
+    // beyond the inline capacities of the crate's small sets (8) and slot maps (10). Only for checks
+    // whose oracle does not need M_cc.
+    let mut wr = Rng::stream(seed, "wide");
+    if matches!(check, "C08" | "C11" | "C12") && wr.chance(1, 10) {
+        let alphabet = 6 + wr.below(7);
+        let p = GenParams {
+            alphabet,
+            max_free: alphabet,
+            max_depth: 2 + wr.below(2),
+            max_ops: *wr.pick(&[2, 3, 4, 6]),
+            max_leaf: 6,
+            binders: wr.chance(1, 2),
+        };
+        run.ops = gen_history(&mut w, &p, with_probes);
+        run.set("wide", 1);
+        tries = 1000;
+    }
     loop {
+        if tries >= 1000 {
+            break;
+        }
         tries += 1;
         let alphabet = 2 + w.weighted(&[3, 5, 3]);
         let big = tier == Tier::Thorough && w.chance(1, 8);
@@ -124,6 +145,63 @@ pub fn relative_renamings(ft: &[S], fs: &[S], fresh: &[S]) -> Vec<BTreeMap<S, S>
         }
     }
     let mut out = Vec::new();
+    if ft.len() > 4 || fs.len() > 4 {
+        // wide terms: the enumeration is exponential; a fixed handful of renamings instead
+        // (names kept where shared, positional, rotated, reversed, all fresh)
+        let fresh_or = |k: usize, used: &Vec<S>| -> Option<S> { fresh.iter().copied().filter(|x| !used.contains(x)).nth(k) };
+        let mut cands: Vec<Vec<Option<S>>> = Vec::new();
+        cands.push(ft.iter().map(|x| if fs.contains(x) { Some(*x) } else { None }).collect());
+        cands.push((0..ft.len()).map(|i| fs.get(i).copied()).collect());
+        if !fs.is_empty() {
+            cands.push((0..ft.len()).map(|i| if ft.len() <= fs.len() { Some(fs[(i + 1) % fs.len()]) } else { fs.get(i + 1).copied() }).collect());
+            cands.push((0..ft.len()).map(|i| if i < fs.len() { Some(fs[fs.len() - 1 - i]) } else { None }).collect());
+            // one transposition of the first two shared positions
+            if ft.len() >= 2 && fs.len() >= 2 {
+                let mut c: Vec<Option<S>> = (0..ft.len()).map(|i| fs.get(i).copied()).collect();
+                c.swap(0, 1);
+                cands.push(c);
+            }
+        }
+        cands.push(vec![None; ft.len()]);
+        for c in cands {
+            let mut used: Vec<S> = c.iter().flatten().copied().collect();
+            let mut m = BTreeMap::new();
+            let mut ok = true;
+            let mut k = 0;
+            // injective?
+            let mut seen: Vec<S> = Vec::new();
+            for y in c.iter().flatten() {
+                if seen.contains(y) {
+                    ok = false;
+                }
+                seen.push(*y);
+            }
+            if !ok {
+                continue;
+            }
+            for (i, y) in c.iter().enumerate() {
+                match y {
+                    Some(y) => {
+                        m.insert(ft[i], *y);
+                    }
+                    None => match fresh_or(k, &used) {
+                        Some(f) => {
+                            m.insert(ft[i], f);
+                            used.push(f);
+                            let _ = &mut k;
+                        }
+                        None => {
+                            ok = false;
+                        }
+                    },
+                }
+            }
+            if ok && !out.contains(&m) {
+                out.push(m);
+            }
+        }
+        return out;
+    }
     rec(0, ft, fs, fresh, &mut Vec::new(), 0, &mut BTreeMap::new(), &mut out);
     out
 }
@@ -493,8 +571,8 @@ impl Check for SessCc {
             if before != after && op.name == "union" {
                 any_change = true;
             }
-            // oracle bookkeeping
-            match op.name.as_str() {
+            // oracle bookkeeping (C08 has no use for the oracle; wide runs would not fit it)
+            match if c08 { "" } else { op.name.as_str() } {
                 "add" => ctx.track(&op.t[0]),
                 "union" => {
                     ctx.track(&op.t[0]);
